@@ -498,7 +498,14 @@ static void jF(const char* k, const curve_t* c, const word* a)
 	octet o[MAXNO];
 	qrTo(o, a, c->f, stk(c->f->deep)); jLimbs16(k, o, c->no);
 }
-static void jW(const char* k, const word* w, size_t m) { octet o[200]; wwTo(o, O_OF_W(m), w); jLimbs16(k, o, O_OF_W(m)); }
+/* a word vector as 16-bit limbs without trailing zero limbs (the same text for every word size) */
+static void jW(const char* k, const word* w, size_t m)
+{
+	octet o[200]; size_t no = O_OF_W(m);
+	wwTo(o, no, w);
+	while (no >= 2 && o[no - 1] == 0 && o[no - 2] == 0) no -= 2;
+	jLimbs16(k, o, no);
+}
 static void rec_begin(const curve_t* c, const char* op)
 {
 	long long p[4];
@@ -602,14 +609,15 @@ static void rec_mulsub(const curve_t* c, int every)
 }
 /* ec2IsOnA on listed points, on points with a coordinate replaced by another subfield element / moved out of the field.
    The raw words are what the function sees: they are logged as such. */
-static void rec_ison(const curve_t* c)
+static void rec_ison(const curve_t* c, int ws)
 {
 	const size_t n = c->n; int i, v;
 	for (i = 1; i <= (int)c->npts; ++i)
-	for (v = 0; v < 7; ++v)
+	for (v = 0; v < (ws ? 7 : 5); ++v)                          /* 5, 6 depend on the word size: not for the suites */
 	{
 		word* a = WALLOC(2 * n); bool_t r;
-		if (v >= 3 && c->m % B_PER_W == 0) { free(a); continue; }
+		/* no spare bit in the last word (suites: in the last word of either word size) */
+		if (v >= 3 && (c->m % B_PER_W == 0 || (!ws && c->m % 32 == 0))) { free(a); continue; }
 		wwCopy(a, AFF(c, i), 2 * n);
 		switch (v)
 		{
@@ -659,10 +667,39 @@ static void rec_std(const char* name, const char* oid, int nheavy, int nlaws)
 	G = c->ec->base;
 	wwSetZero(qw, n1); wwFrom(qw, dp->n, no);
 	nq = wwWordSize(qw, n1);                /* significant words of the order */
-	rec_begin(c, "group"); jLimbs16("q", dp->n, no); jInt("cof", (long long)dp->c); jP("P", c, G);
-	jBool("valid", ec2IsValid(c->ec, stk(ec2IsValid_deep(n))));
-	jBool("seems", ec2SeemsValidGroup(c->ec, stk(ec2SeemsValidGroup_deep(n, c->f->deep))));
-	jBool("ison", ec2IsOnA(G, c->ec, stk(ec2IsOnA_deep(n, c->f->deep)))); jEnd();
+	/* the group description: hv 0 = the standard's order; 1, 2 = order +- 2^(m/2 + 3) (cofactor times that is outside the
+	   Hasse interval whatever the trace is, yet the numbers have the same length); 3, 4 = order +- 1; 5 = order + 2^(m/2 - 3)
+	   (mostly inside: the specification decides); 6 = order + 2^(m - 3); 7 = the cofactor + 1 */
+	{
+		int hv;
+		for (hv = 0; hv < 8; ++hv)
+		{
+			octet qv[MAXNO + 8]; u32 cof = dp->c; size_t k = 0; int sub = 0;
+			switch (hv)
+			{
+			case 1: k = poly[0] / 2 + 3; break;
+			case 2: k = poly[0] / 2 + 3; sub = 1; break;
+			case 3: k = 0; break;
+			case 4: k = 0; sub = 1; break;
+			case 5: k = poly[0] / 2 - 3; break;
+			case 6: k = poly[0] - 3; break;
+			case 7: ++cof; break;
+			}
+			wwCopy(d, qw, n1);
+			if (hv >= 1 && hv <= 6)
+			{
+				wwSetZero(e, n1); wwSetBit(e, k, 1);
+				if (sub) zzSub2(d, e, n1); else zzAdd2(d, e, n1);
+			}
+			memset(qv, 0, sizeof(qv)); wwTo(qv, no, d);
+			if (!ecCreateGroup(c->ec, dp->P, dp->P + no, qv, no, cof, stk(ecCreateGroup_deep(c->f->deep)))) continue;
+			rec_begin(c, "group"); jInt("hv", hv); jLimbs16("q", qv, no); jInt("cof", (long long)cof); jP("P", c, c->ec->base);
+			if (hv == 0) jBool("valid", ec2IsValid(c->ec, stk(ec2IsValid_deep(n))));
+			jBool("seems", ec2SeemsValidGroup(c->ec, stk(ec2SeemsValidGroup_deep(n, c->f->deep))));
+			jBool("ison", ec2IsOnA(c->ec->base, c->ec, stk(ec2IsOnA_deep(n, c->f->deep)))); jEnd();
+		}
+		ecCreateGroup(c->ec, dp->P, dp->P + no, dp->n, no, dp->c, stk(ecCreateGroup_deep(c->f->deep)));
+	}
 	wwSetZero(d, n1); rec_mul_line(c, "0", G, d, nq, 0);
 	d[0] = 1; rec_mul_line(c, "1", G, d, nq, 0); rec_mul_line(c, "1:8 octets", G, d, W_OF_O(8), 0);
 	d[0] = 2; rec_mul_line(c, "2", G, d, n1, 0);
@@ -770,7 +807,7 @@ static int run(int record)
 			if (strcmp(cmd.op, "rpairs") == 0) rec_pairs(&C, (int)vxInt(&cmd, "all", 0));
 			else if (strcmp(cmd.op, "runary") == 0) rec_unary(&C);
 			else if (strcmp(cmd.op, "rmulsub") == 0) rec_mulsub(&C, (int)vxInt(&cmd, "every", 3));
-			else if (strcmp(cmd.op, "rison") == 0) rec_ison(&C);
+			else if (strcmp(cmd.op, "rison") == 0) rec_ison(&C, (int)vxInt(&cmd, "ws", 0));
 		}
 		else if (strcmp(cmd.op, "pairs") == 0) do_pairs(&C);
 		else if (strcmp(cmd.op, "unary") == 0) do_unary(&C);
